@@ -612,3 +612,24 @@ def rule_no_state(ctx):
               "read_header_line returns (an alias of) module-level object %s: all lines share one dict"
               % ", ".join(fmt_path(x) for x in glob))
     ctx.floor("HDR.NO-STATE", 8)
+
+
+def rule_flag_forward(ctx):
+    """HDR.FLAG-FORWARD: LASFile.read hands its ignore_header_errors / ignore_comments / mnemonic_case arguments to the
+    header parser unchanged, for every section"""
+    p = ctx.p
+    r = get_resolver(p)
+    fr = p.func("las.LASFile.read")
+    calls = [c for c in walk_shallow(fr.node) if isinstance(c, ast.Call) and any(t.qual == SECTION_FN for t in r.callees(fr, c)[0])]
+    if not calls:
+        raise AnalysisError("LASFile.read does not call %s" % SECTION_FN)
+    for i, c in enumerate(calls):
+        kw = {k.arg: k.value for k in c.keywords}
+        for name in ("ignore_header_errors", "mnemonic_case"):
+            v = kw.get(name)
+            ok = isinstance(v, ast.Name) and v.id == name
+            ctx.check(ok, "HDR.FLAG-FORWARD", "las.LASFile.read#%s@%d" % (name, i + 1), fr, c,
+                      "%s is forwarded to the header parser unchanged" % name,
+                      "the header parser is called with %s=%s instead of the caller's value: for some sections the flag is not "
+                      "honoured (a junk line there raises although errors are to be ignored)" % (name, unparse(v) if v is not None else "<default>"))
+    ctx.floor("HDR.FLAG-FORWARD", 2)
